@@ -6,7 +6,7 @@ import DVP.Lemmas.Brent
 
 `DV.Lookup` mirrors `OdeSystem.__getitem__` and Python's iteration protocol; it is tied to the code by
 `harness/p_c19.py` (every integer index in `[-len-2, len+2]`, numpy integers, query times inside and
-outside the range, forward / backward / continued grids, whole-run slices, iteration, dense lookup).
+outside the range, forward / backward / continued / against-span grids, time slices, iteration, dense lookup).
 The dense-output branch delegates to the dense solution (C06).
 -/
 namespace DVP.C19
@@ -123,5 +123,139 @@ sample at 1/4 (not 1/2), also on the reversed grid -/
 example : nearest [0, 1/4, 1/2, 3/4, (1:ℚ)] (3/10) = 1 ∧ nearest [1, 3/4, 1/2, 1/4, (0:ℚ)] (3/10) = 3 ∧
     intIndex 5 (-1) = some 4 ∧ intIndex 5 5 = none ∧ intIndex 5 (-6) = none ∧ iterate 5 20 = [0, 1, 2, 3, 4] := by
   decide +kernel
+
+/-! ## time slices -/
+
+private theorem getElem!_map_sg (ts : Array ℚ) (neg : Bool) (i : Nat) :
+    (ts.map (fun x => if neg = true then -x else x))[i]! = (if neg = true then -(ts[i]!) else ts[i]!) := by
+  by_cases h : i < ts.size
+  · simp [h]
+  · have h' : ts.size ≤ i := Nat.le_of_not_lt h
+    have hd : (default : ℚ) = 0 := rfl
+    cases neg <;> simp [h', hd]
+
+/-- the grid as the bisection sees it: negated when the run went backward -/
+private def seen (ts : Array ℚ) (neg : Bool) : Nat → ℚ := fun i => if neg = true then -(ts[i]!) else ts[i]!
+
+private theorem slice_unfold (ts : Array ℚ) (start stop : Option ℚ) :
+    sliceRange ts start stop =
+      (let neg := decide (1 < ts.size) && decide (ts[ts.size - 1]! < ts[0]!)
+       ((match start with
+          | some v => DV.Bisect.searchS (seen ts neg) ts.size (if neg = true then -v else v)
+          | none => 0),
+        (match stop with
+          | some v => DV.Bisect.searchS (seen ts neg) ts.size (if neg = true then -v else v) + 1
+          | none => ts.size))) := by
+  unfold sliceRange DV.Bisect.searchSArr seen
+  simp only [Array.size_map]
+  have hf : ∀ neg : Bool, (fun i : Nat => ((ts.map (fun x => if neg = true then -x else x))[i]! : ℚ)) =
+      (fun i : Nat => if neg = true then -(ts[i]!) else ts[i]!) := fun neg => funext (getElem!_map_sg ts neg)
+  cases start <;> cases stop <;> simp only [hf]
+
+/-- the window argument on the grid as the bisection sees it -/
+private theorem window_core (f : Nat → ℚ) (n : Nat) (hn : 0 < n) (hinc : DVP.Bisect.StrictIncr f n) (i : Nat) (hi : i < n) :
+    (∀ a, a ≤ f i → DV.Bisect.searchS f n a ≤ i) ∧
+    (∀ b, f i ≤ b → i < DV.Bisect.searchS f n b + 1 ∧ DV.Bisect.searchS f n b + 1 ≤ n) := by
+  refine ⟨fun a h1 => ?_, fun b h2 => ?_⟩
+  · obtain ⟨_, s2, _⟩ := DVP.Bisect.searchS_spec f n hn hinc a
+    by_contra hc
+    exact absurd h1 (not_le.mpr (s2 i (by omega)))
+  · obtain ⟨e1, _, e3⟩ := DVP.Bisect.searchS_spec f n hn hinc b
+    refine ⟨?_, by omega⟩
+    by_contra hc
+    have hri : DV.Bisect.searchS f n b < i := by omega
+    rcases e3 with h | h
+    · exact absurd (lt_of_lt_of_le (hinc _ i hri hi) h2) (not_lt.mpr h)
+    · omega
+
+/-- a sample lies in the window `[start, stop]` of a slice (an open end does not restrict), for a run
+in direction `fwd` -/
+def InWindow (fwd : Bool) (start stop : Option ℚ) (t : ℚ) : Prop :=
+  (∀ v, start = some v → if fwd then v ≤ t else t ≤ v) ∧ (∀ v, stop = some v → if fwd then t ≤ v else v ≤ t)
+
+private theorem slice_core (ts : Array ℚ) (neg : Bool) (hn : 0 < ts.size)
+    (hneg : (decide (1 < ts.size) && decide (ts[ts.size - 1]! < ts[0]!)) = neg)
+    (hinc : DVP.Bisect.StrictIncr (seen ts neg) ts.size)
+    (start stop : Option ℚ) (i : Nat) (hi : i < ts.size) (hw : InWindow (!neg) start stop (ts[i]!)) :
+    (sliceRange ts start stop).1 ≤ i ∧ i < (sliceRange ts start stop).2 ∧ (sliceRange ts start stop).2 ≤ ts.size := by
+  rw [slice_unfold]
+  simp only [hneg]
+  obtain ⟨c1, c2⟩ := window_core (seen ts neg) ts.size hn hinc i hi
+  obtain ⟨w1, w2⟩ := hw
+  refine ⟨?_, ?_⟩
+  · cases start with
+    | none => exact Nat.zero_le _
+    | some v =>
+      apply c1
+      have := w1 v rfl
+      cases neg <;> simp [seen] at this ⊢ <;> exact this
+  · cases stop with
+    | none => exact ⟨hi, Nat.le_refl _⟩
+    | some v =>
+      apply c2
+      have := w2 v rfl
+      cases neg <;> simp [seen] at this ⊢ <;> exact this
+
+/-- **Time slices on a forward grid**: for every strictly increasing recorded grid, every window
+`[start, stop]` (either end may be open) and every sample inside the window, the slice
+`a[start:stop]` contains that sample and stays within the recorded samples -/
+theorem slice_covers_window_forward (ts : Array ℚ) (hn : 0 < ts.size)
+    (hinc : DVP.Bisect.StrictIncr (fun i => ts[i]!) ts.size) (start stop : Option ℚ) (i : Nat) (hi : i < ts.size)
+    (hw : InWindow true start stop (ts[i]!)) :
+    (sliceRange ts start stop).1 ≤ i ∧ i < (sliceRange ts start stop).2 ∧ (sliceRange ts start stop).2 ≤ ts.size := by
+  have hneg : (decide (1 < ts.size) && decide (ts[ts.size - 1]! < ts[0]!)) = false := by
+    by_cases h1n : 1 < ts.size
+    · have := hinc 0 (ts.size - 1) (by omega) (by omega)
+      simp only [Bool.and_eq_false_imp, decide_eq_true_eq, decide_eq_false_iff_not, not_lt]
+      intro _; exact le_of_lt this
+    · simp [h1n]
+  have hs : seen ts false = fun i => ts[i]! := by funext i; simp [seen]
+  exact slice_core ts false hn hneg (by rw [hs]; exact hinc) start stop i hi (by simpa using hw)
+
+/-- **Time slices on a backward grid** (strictly decreasing recorded times, at least two samples):
+the window is `[stop, start]` in time and the slice again contains every sample inside it -/
+theorem slice_covers_window_backward (ts : Array ℚ) (hn : 1 < ts.size)
+    (hdec : DVP.Bisect.StrictIncr (fun i => -(ts[i]!)) ts.size) (start stop : Option ℚ) (i : Nat) (hi : i < ts.size)
+    (hw : InWindow false start stop (ts[i]!)) :
+    (sliceRange ts start stop).1 ≤ i ∧ i < (sliceRange ts start stop).2 ∧ (sliceRange ts start stop).2 ≤ ts.size := by
+  have hneg : (decide (1 < ts.size) && decide (ts[ts.size - 1]! < ts[0]!)) = true := by
+    have := hdec 0 (ts.size - 1) (by omega) (by omega)
+    simp only [Bool.and_eq_true, decide_eq_true_eq]
+    exact ⟨hn, by simpa using this⟩
+  have hs : seen ts true = fun i => -(ts[i]!) := by funext i; simp [seen]
+  exact slice_core ts true (by omega) hneg (by rw [hs]; exact hdec) start stop i hi (by simpa using hw)
+
+/-- **A slice spanning the whole run returns the whole run**, forward and backward -/
+theorem whole_run_slice (ts : Array ℚ) (hn : 1 < ts.size)
+    (hmono : DVP.Bisect.StrictIncr (fun i => ts[i]!) ts.size ∨ DVP.Bisect.StrictIncr (fun i => -(ts[i]!)) ts.size) :
+    sliceRange ts (some ts[0]!) (some ts[ts.size - 1]!) = (0, ts.size) := by
+  have key : ∀ i, i < ts.size →
+      (sliceRange ts (some ts[0]!) (some ts[ts.size - 1]!)).1 ≤ i ∧ i < (sliceRange ts (some ts[0]!) (some ts[ts.size - 1]!)).2 ∧
+      (sliceRange ts (some ts[0]!) (some ts[ts.size - 1]!)).2 ≤ ts.size := by
+    intro i hi
+    rcases hmono with hinc | hdec
+    · apply slice_covers_window_forward ts (by omega) hinc _ _ i hi
+      refine ⟨fun v hv => ?_, fun v hv => ?_⟩
+      · cases hv; simpa using DVP.Bisect.StrictIncr.le hinc (Nat.zero_le i) hi
+      · cases hv; simpa using DVP.Bisect.StrictIncr.le hinc (show i ≤ ts.size - 1 by omega) (by omega)
+    · apply slice_covers_window_backward ts hn hdec _ _ i hi
+      refine ⟨fun v hv => ?_, fun v hv => ?_⟩
+      · cases hv
+        have := DVP.Bisect.StrictIncr.le hdec (Nat.zero_le i) hi
+        simpa using this
+      · cases hv
+        have := DVP.Bisect.StrictIncr.le hdec (show i ≤ ts.size - 1 by omega) (by omega)
+        simpa using this
+  have h0 := key 0 (by omega)
+  have hl := key (ts.size - 1) (by omega)
+  apply Prod.ext
+  · simp only; omega
+  · simp only; omega
+
+/-- non-vacuity: a backward grid and a forward grid meet the hypotheses; interior windows -/
+example : sliceRange #[(1:ℚ), 3/4, 1/2, 1/4, 0] (some 1) (some 0) = (0, 5) ∧
+    sliceRange #[(0:ℚ), 1/4, 1/2, 3/4, 1] (some (1/4)) (some (3/4)) = (1, 4) ∧
+    sliceRange #[(1:ℚ), 3/4, 1/2, 1/4, 0] (some (3/4)) (some (1/4)) = (1, 4) ∧
+    sliceRange #[(0:ℚ), 1/4, 1/2, 3/4, 1] none (some (1/2)) = (0, 3) := by decide +kernel
 
 end DVP.C19
